@@ -315,6 +315,14 @@ func (t *impTr) expr(e ast.Expr, recv string) (string, error) {
 				return t.expr(x.Args[0], recv)
 			}
 		}
+		// atomic.LoadInt32(&x.f) and the like: the field
+		if sel, ok := x.Fun.(*ast.SelectorExpr); ok && len(x.Args) == 1 && strings.HasPrefix(sel.Sel.Name, "Load") {
+			if id, ok := sel.X.(*ast.Ident); ok && id.Name == "atomic" {
+				if u, ok := x.Args[0].(*ast.UnaryExpr); ok && u.Op == token.AND {
+					return t.expr(u.X, recv)
+				}
+			}
+		}
 		// len(b) of a byte slice: byte slices are represented by their lengths
 		if id, ok := x.Fun.(*ast.Ident); ok && id.Name == "len" && len(x.Args) == 1 && t.emitter != "" {
 			return t.expr(x.Args[0], recv)
@@ -513,6 +521,25 @@ func (t *impTr) block(stmts []ast.Stmt, rest [][]ast.Stmt, recv string, depth in
 		}
 		if t.emitter != "" && t.isGzClose(x.X) {
 			return cont()
+		}
+		if c, ok := x.X.(*ast.CallExpr); ok && len(c.Args) == 2 {
+			if sel, ok := c.Fun.(*ast.SelectorExpr); ok && strings.HasPrefix(sel.Sel.Name, "Add") {
+				if id, ok := sel.X.(*ast.Ident); ok && id.Name == "atomic" {
+					if u, ok := c.Args[0].(*ast.UnaryExpr); ok && u.Op == token.AND {
+						if f, isSelf, _ := selfField(u.X); isSelf {
+							d, err := t.expr(c.Args[1], recv)
+							if err != nil {
+								return "", err
+							}
+							k, err := cont()
+							if err != nil {
+								return "", err
+							}
+							return fmt.Sprintf("let self := %sset_%s self ((%s%s self) + %s) in\n%s%s", self.prefix, f, self.prefix, f, d, ind, k), nil
+						}
+					}
+				}
+			}
 		}
 		if f, ok := t.bufReset(x.X, recv); ok {
 			k, err := cont()
@@ -1142,4 +1169,9 @@ func genSizeLimitWriter(repo string) (string, error) {
 func genGzipWriter(repo string) (string, error) {
 	return genImperativeOpt(repo, "internal/plugins/compression.go", "gzipResponseWriter", "gzg_", "", "", "",
 		[]string{"commit", "streamUncompressed", "WriteHeader", "Write", "Flush", "Finish"}, "ResponseWriter", []string{"shouldGzipBody"})
+}
+
+func genBackendObj(repo string) (string, error) {
+	return genImperative(repo, "internal/loadbalancer/loadbalancer.go", "Backend", "bo_", "", "", "",
+		[]string{"markedHealthy", "IncrementConnections", "DecrementConnections", "GetActiveConnections"})
 }
